@@ -53,7 +53,8 @@ UNMAPPED = ["path", "net.ipaddress", "stringlist", "dictlist", "command", "dynam
 INT32 = ("uint16", "uint32")
 INT64 = ("varint", "filesize", "unix_file_mode")
 NAMES = ["test/a", "a", "t/x", "filesystem/entry", "deep/er/name", "x1/y_2/z3", "Upper/Case", "test/b"]
-FNAMES = ["a", "b", "c", "value", "ts", "name", "data", "n", "x1", "long_field_name", "s", "bad"]
+# ("from", "class", "in": Python keywords - the library generates another constructor for such record types)
+FNAMES = ["a", "b", "c", "value", "ts", "name", "data", "n", "x1", "long_field_name", "s", "bad", "from", "class", "in"]
 EPOCH = _dtm.datetime(1970, 1, 1, tzinfo=_dtm.timezone.utc)
 US = _dtm.timedelta(microseconds=1)
 
